@@ -4,7 +4,9 @@ import IrVerif.Model.Inline
 /-! Protocol handler for the function-call models (C05): InlinePass, RemoveUnusedFunctionsPass,
 RemoveUnusedOpsetsPass.
 `{"m":"inline.run","model":<fmodel>,"crit":null|[[domain,type,overload]...]}` →
-  `{"model":<fmodel>,"stuck":bool,"valid":bool,"why":[..],"valid_after":bool,"inlined":[[..]],"count":n}`
+  `{"model":<fmodel>,"stuck":bool,"dangling":bool,"accepted_left":bool,"raised":bool,"valid":bool,"flat":bool,
+    "why":[..],"valid_after":bool,"inlined":[[..]],"count":n}` (`raised`: the real pass raises on this model - a call
+    does not supply a function input that the function returns; the model answers with the unchanged model)
 `{"m":"inline.ruf","model":<fmodel>}` → `{"model":<fmodel>,"closed":bool,"used":[[..]]}`
 `{"m":"inline.ruo","model":<fmodel>,"pf":bool}` → `{"model":<fmodel>}`
 Encoding: fmodel `{"g":graph,"f":[func],"d":[domain]}`; func `{"id":[domain,type,overload],
@@ -92,6 +94,7 @@ def fmodelJ (m : FModel) : Json :=
 
 /-- which conjunct of `validF` fails (information only) -/
 def whyInvalid (m : FModel) : List String :=
+  (if (findFunc m.funcs identityOp).isNone then [] else ["identity_function"]) ++
   (if validModel (eraseModel m) then [] else ["validModel"]) ++
   (if decide ((m.funcs.map (·.id)).Nodup) then [] else ["func_ids"]) ++
   (if m.funcs.all (fun f => lvl m.funcs m.funcs.length f.id) then [] else ["recursive"]) ++
@@ -111,13 +114,18 @@ def handle : Handler := fun m j =>
         pure (fun op => l.contains op)
     let run := inlineRun crit model
     let out := inlineModel crit model
-    return obj [("model", fmodelJ out), ("stuck", toJson run.st.stuck), ("dangling", toJson (!noDangling model.funcs run)), ("valid", toJson (validF model)), ("flat", toJson (flatFuncs model)),
+    return obj [("model", fmodelJ out), ("stuck", toJson run.st.stuck), ("dangling", toJson (!noDangling model.funcs run)),
+      ("accepted_left", toJson (!noAccepted model.funcs crit run)), ("raised", toJson run.st.raised),
+      ("syn_bad", toJson (synOK model.funcs model.funcs && !synOK model.funcs run.tbl)),
+      ("depth_bad", toJson (depthOK model.funcs.length model.funcs && !depthOK model.funcs.length run.model.funcs)), ("valid", toJson (validF model)), ("flat", toJson (flatFuncs model)), ("pure_main", toJson (pureMain model)),
+      ("pure_after", toJson (pureMain out)),
       ("why", strsJ (whyInvalid model)), ("valid_after", toJson (validF out)),
       ("inlined", Json.arr (run.st.inlined.map opJ).toArray), ("count", toJson run.st.count)]
   | "inline.ruf" => some do
     let model ← getFModel (← j.getObjVal? "model")
     return obj [("model", fmodelJ (rufModel model)), ("closed", toJson (closedUsed model.funcs (usedFuncs model))),
-      ("used", Json.arr ((usedFuncs model).map opJ).toArray), ("valid", toJson (validF model))]
+      ("used", Json.arr ((usedFuncs model).map opJ).toArray), ("valid", toJson (validF model)),
+      ("pure_main", toJson (pureMain model))]
   | "inline.ruo" => some do
     let model ← getFModel (← j.getObjVal? "model")
     let pf ← getBool j "pf"
